@@ -55,7 +55,8 @@ ASSUMPTIONS = [
     "definite, eigenvalues < 1) are demanded whenever the exact margin exceeds that "
     "perturbation, else the case counts as *.dont_care",
     "limits: scalings t = 10^-j of S_y (resp. S_a) as far as kappa_S(t) <= 1e6; ||I - A_t|| "
-    "(resp. ||A_t||) must not grow by more than the tolerance from one member to the next and "
+    "(resp. ||A_t||), measured as the Frobenius norm of L^-1 (.) L in which A is symmetric, must "
+    "not grow by more than the tolerance from one member to the next and "
     "every member must match its reference",
 ]
 MIN_NONTRIVIAL = {"quick": 1200, "thorough": 12000}
@@ -454,7 +455,7 @@ def check_limits(rec, g):
     d = max(g["n"], g["m"])
     I = np.eye(n)
     for which in ("noise", "prior"):
-        prev, steps, last = None, 0, None
+        prev, steps, last, first = None, 0, None, None
         for j in range(0, 14):
             t = 10.0 ** (-j)
             Sa_t, Sy_t = (S_a, S_y * t) if which == "noise" else (S_a * t, S_y)
@@ -466,10 +467,14 @@ def check_limits(rec, g):
                          K, Sa_t, Sy_t)
             if not ok:
                 break
-            tA = C * d * EPS * ref.kappa_S * max(ref.scale_A, 1.0)
+            # distances are taken in the metric in which A is symmetric (L^-1 . L with
+            # S_a = L L^T): there ||I - A|| = ||(1/(1 + mu_i/t))_i|| is monotone in t, which the
+            # plain Frobenius norm of the non-normal matrix I - A is not; kappa(L) = sqrt(kappa_a)
+            tA = C * d * EPS * ref.kappa_S * max(ref.scale_A, 1.0) * np.sqrt(ref.kappa_a)
             target = I if which == "noise" else np.zeros((n, n))
-            dist = M.fro(M.ld(A) - M.ld(target))
-            dref = M.fro(ref.A_gk - M.ld(target))
+            L = M.chol(Sa_t)
+            dist = M.fro(M.solve_lower(L, (M.ld(A) - M.ld(target)) @ L))
+            dref = M.fro(M.solve_lower(L, (ref.A_gk - M.ld(target)) @ L))
             if not abs(dist - dref) <= tA:
                 rec.violation("A-limit-" + which, case,
                               {"t": t, "dist": dist, "dist_ref": dref, "tol": tA})
@@ -479,12 +484,15 @@ def check_limits(rec, g):
                               {"t": t, "dist": dist, "previous": prev, "tol": tA,
                                "why": "not approached monotonically"})
                 break
+            if prev is None:
+                first = dist
             prev, last = dist, dist
             steps += 1
         if steps >= 3:
             rec.count("limits." + which)
             rec.maxi("limit.%s.steps" % which, steps)
             rec.maxi("limit.%s.final_distance_max" % which, last)
+            rec.maxi("limit.%s.final_over_first_max" % which, last / first if first else 0.0)
             rec.nontriv(["limit", which, min(g["n"], 8), g["k"]], [g["s"], g["n"], g["m"], steps])
 
 
